@@ -848,6 +848,11 @@ class Interp:
             self.unknown("unexpected-keyword:" + ",".join(extra), node)
         if a.vararg and a.vararg.arg not in env:
             env[a.vararg.arg] = Seq([], "tuple")
+        # the condition under which the caller reached this call (an arm of a branch inside a summarised loop) holds for
+        # everything the callee does: events recorded there (a line drawn by a small helper) carry it
+        cr_ = getattr(self, "cur_reach", sym.TRUE)
+        if self.frames and cr_ != sym.TRUE and "$reach" not in env:
+            env["$reach"] = Sc(cr_)
         fr = Frame(fi, env, depth, closure_env)
         fr.path_base = len(self.path)
         if closure_env is not None and not isinstance(fnode, ast.Lambda):
@@ -2853,6 +2858,35 @@ class Interp:
             return self.unknown("compare-" + type(op).__name__, node)
         if isinstance(a, StrV) and isinstance(b, StrV):
             return Sc(sym.Bool((a.s == b.s) == (name == "==")))
+        if isinstance(a, Seq) and isinstance(b, Seq) and name in ("==", "!="):
+            # tuples / lists compare element by element, nested ones too
+            def flat(x, y):
+                if isinstance(x, Seq) and isinstance(y, Seq):
+                    if len(x.items) != len(y.items):
+                        return False
+                    out_ = []
+                    for p_, q_ in zip(x.items, y.items):
+                        r_ = flat(p_, q_)
+                        if r_ is False or r_ is None:
+                            return r_
+                        out_ += r_
+                    return out_
+                if isinstance(x, Sc) and isinstance(y, Sc) and x.e is not None and y.e is not None:
+                    return [(x.e, y.e)]
+                if isinstance(x, NoneV) and isinstance(y, NoneV):
+                    return []
+                if isinstance(x, NoneV) != isinstance(y, NoneV) and isinstance(x, (NoneV, Sc, Seq)) and isinstance(y, (NoneV, Sc, Seq)):
+                    return False
+                return None
+            pairs_ = flat(a, b)
+            if pairs_ is False:
+                return Sc(sym.Bool(name == "!="))
+            if pairs_ is not None:
+                eq = sym.And(*[sym.Cmp("==", x, y) for x, y in pairs_]) if pairs_ else sym.TRUE
+                d = self.decide(eq)
+                if d is not None:
+                    eq = sym.Bool(d)
+                return Sc(eq if name == "==" else sym.Not(eq))
         if isinstance(a, Seq) and isinstance(b, Seq) and name in ("==", "!=") and all(isinstance(x, Sc) for x in a.items + b.items):
             if len(a.items) != len(b.items):
                 return Sc(sym.Bool(name == "!="))
@@ -3032,6 +3066,7 @@ class Interp:
                 and all(it[0] in ("slice", "full", "int", "new", "ellipsis", "expr") for it in idx):
             # basic indexing of an ndarray gives a view: a store through it would change the array it was taken from
             r.view_of = getattr(base, "view_of", None) or base
+            r.view_idx = idx if getattr(base, "view_of", None) is None else None   # where in the base (first-level views only)
         return r
 
     def _keymap_lookup(self, km, key: Expr) -> Optional[Expr]:
@@ -3178,6 +3213,30 @@ class Interp:
                     return self.unknown("chaos:" + fv.target, n, tuple(generic_elem(x) for x in pos))
                 if h is None:
                     return self.unknown("prim:" + fv.target, n, tuple(generic_elem(x) for x in pos))
+                out_ = kwargs.get("out") if isinstance(kwargs, dict) else None
+                if out_ is not None and not isinstance(out_, NoneV) and fv.target.startswith(("numpy.", "scipy.")):
+                    # ufunc(..., out=A): A is overwritten in place with the result (and returned)
+                    kwargs = {k_: v_ for k_, v_ in kwargs.items() if k_ != "out"}
+                    try:
+                        r = h(self, n, pos, kwargs)
+                    except IndexError:
+                        r = None
+                    if isinstance(out_, Arr) and out_.kind == "nd" and isinstance(r, Arr) and r.ndim == out_.ndim \
+                            and all(x[0].same_size(y[0]) for x, y in zip(r.axes, out_.axes)) and getattr(out_, "view_of", None) is None:
+                        out_.axes, out_.elem = r.axes, r.elem
+                        return out_
+                    base_ = getattr(out_, "view_of", None)
+                    vidx_ = getattr(out_, "view_idx", None)
+                    if isinstance(out_, Arr) and isinstance(base_, Arr) and vidx_ is not None and isinstance(r, (Arr, Sc)):
+                        # out= names a column / row / slice of an array: that part of the array is overwritten
+                        nv_ = self._store_into_arr(base_, vidx_, r, n)
+                        if nv_ is not None:
+                            base_.axes, base_.elem = nv_.axes, nv_.elem
+                            return self.subscript(base_, vidx_, n)
+                    self.lose(f"{fv.target}(..., out=...): the array given as out= is overwritten, which was not followed", n)
+                    if isinstance(out_, Arr):
+                        out_.elem = self.unknown("out-argument", n).e
+                    return r if r is not None else self.unknown("prim-out:" + fv.target, n)
                 try:
                     r = h(self, n, pos, kwargs)
                 except IndexError:
